@@ -6,6 +6,13 @@
 // identity; every Preload / Joins / Association().Find result is compared record by record
 // (scalar columns and, recursively, every relation field: requested relations must hold
 // exactly the reference rows, unrequested ones must stay empty).
+//
+// Beyond the key contents the workload varies: the ORDER of the columns of every model (a
+// nullable column, the soft-delete column or an embedded audit struct in front of the row
+// identity, see models.go), the destination (fresh, or REUSED: a struct / slice that already
+// holds earlier records with arbitrary rows in their relation fields), the finisher for a struct
+// destination (First | Take | Last | Find) and the handle (fresh chain, or second execution of a
+// chain frozen with Session).
 package c11
 
 import (
@@ -68,6 +75,9 @@ type op struct {
 	// arbitrary earlier records; assoc-find: arbitrary earlier rows of the relation's model
 	reuse bool
 	pre   []staleRec
+	// the chain is frozen with Session(&gorm.Session{}) and executed twice (first into a fresh
+	// destination of the same shape that is thrown away); the second execution is compared
+	twice bool
 }
 
 // staleRec is one record held by a reused destination: the scalar columns of row rw and, per
@@ -392,7 +402,9 @@ func genOp(r *core.Rand, ds *dataset) *op {
 			}
 			addPreload(p, !covered)
 		}
+		o.dup = o.dest != "struct" && r.Chance(1, 6)
 	}
+	o.twice = r.Chance(1, 5)
 	return o
 }
 
@@ -478,6 +490,9 @@ func (o *op) desc() string {
 	if o.filter != nil {
 		fmt.Fprintf(&sb, ".Where(%s.u IN %v)", o.root.table, o.filter)
 	}
+	if o.twice {
+		sb.WriteString(".Session(&gorm.Session{}) <executed twice, second result compared> ")
+	}
 	switch {
 	case o.reuse && o.dest == "struct":
 		fmt.Fprintf(&sb, ".%s(&dest)", o.fin)
@@ -498,7 +513,8 @@ func (o *op) desc() string {
 type problem struct {
 	rl    *rel
 	msg   string
-	nokey bool // the owner's key tuple of rl is entirely NULL / zero ("no key" for gorm)
+	path  string // relation path from the root record to the deviating relation field
+	nokey bool   // the owner's key tuple of rl is entirely NULL / zero ("no key" for gorm)
 }
 
 type checker struct {
@@ -619,7 +635,7 @@ func sameInts(a, b []int64) bool {
 //
 // reused: got is a destination that held earlier content before the call; relation fields that
 // were not requested keep whatever they held (not fixed by the statement: not compared).
-func (k *checker) record(m *model, got reflect.Value, want *row, t *loadNode, where string, via *rel, reused bool) {
+func (k *checker) record(m *model, got reflect.Value, want *row, t *loadNode, where string, via *rel, reused bool, path ...string) {
 	k.scalars(m, got, want, where, via)
 	for _, rl := range m.rels {
 		f := got.FieldByName(rl.name)
@@ -642,13 +658,14 @@ func (k *checker) record(m *model, got reflect.Value, want *row, t *loadNode, wh
 			k.add(rl, "%s (%s, owner key %s): attached rows u=%v, reference join gives u=%v", w, rl.kind, want.tuple(rl.ownerCols), gu, wu)
 			if n := len(k.problems); n > 0 && k.problems[n-1].rl == rl {
 				k.problems[n-1].nokey = allZero(want.tuple(rl.ownerCols))
+				k.problems[n-1].path = strings.Join(append(append([]string{}, path...), rl.name), ".")
 			}
 			continue
 		}
 		k.attached += len(kids)
 		sort.Slice(kids, func(i, j int) bool { return uOf(kids[i]) < uOf(kids[j]) })
 		for _, kid := range kids {
-			k.record(rl.target, kid, k.ds.byU(rl.target, uOf(kid)), sub, fmt.Sprintf("%s[u=%d]", w, uOf(kid)), rl, false)
+			k.record(rl.target, kid, k.ds.byU(rl.target, uOf(kid)), sub, fmt.Sprintf("%s[u=%d]", w, uOf(kid)), rl, false, append(append([]string{}, path...), rl.name)...)
 		}
 	}
 }
@@ -803,6 +820,27 @@ func execOp(ds *dataset, o *op) *checker {
 		}
 		db = db.Where(clause.IN{Column: clause.Column{Table: clause.CurrentTable, Name: "u"}, Values: vals})
 	}
+	if o.twice {
+		db = db.Session(&gorm.Session{})
+		switch o.dest {
+		case "struct":
+			p := reflect.New(o.root.typ).Interface()
+			switch o.fin {
+			case "Take":
+				db.Take(p)
+			case "Last":
+				db.Last(p)
+			case "Find":
+				db.Find(p)
+			default:
+				db.First(p)
+			}
+		case "slice":
+			db.Find(reflect.New(reflect.SliceOf(o.root.typ)).Interface())
+		default:
+			db.Find(reflect.New(reflect.SliceOf(reflect.PtrTo(o.root.typ))).Interface())
+		}
+	}
 	want := ds.parentsOf(o)
 	tree := o.tree()
 	var records []reflect.Value
@@ -931,20 +969,43 @@ func signature(ds *dataset, o *op, k *checker) string {
 }
 
 // staleSignature names a failure that occurs only because the destination held earlier content:
-// operation kind, kind of the first deviating relation and, when that parent's key tuple for the
-// relation is entirely NULL / zero (gorm then has no key to look up), the suffix no-owner-key.
+// destination shape and, for every deviating relation field, how it was to be loaded (preload |
+// joins | assoc-find), the relation kind and, when that parent's key tuple for the relation is
+// entirely NULL / zero (gorm then has no key to look up), the suffix no-owner-key.
 func staleSignature(o *op, k *checker) string {
-	sig := "stale-on-reused-destination:" + o.kind + ":" + o.dest
+	set := map[string]bool{}
 	for _, p := range k.problems {
-		if p.rl != nil {
-			sig += ":" + string(p.rl.kind)
-			if p.nokey {
-				sig += ":no-owner-key"
-			}
-			break
+		if p.rl == nil {
+			continue
 		}
+		mech := "preload"
+		if o.kind == "assoc-find" {
+			mech = "assoc-find"
+		}
+		for _, j := range o.joins {
+			if p.path != "" && isPrefixOrEqual(p.path, j.path) {
+				mech = "joins"
+			}
+		}
+		c := mech
+		if mech != "joins" {
+			// a joined relation is scanned from the parent's own row: its kind and key play no part
+			c += ":" + string(p.rl.kind)
+			if p.nokey {
+				c += ":no-owner-key"
+			}
+		}
+		set[c] = true
 	}
-	return sig
+	var classes []string
+	for c := range set {
+		classes = append(classes, c)
+	}
+	sort.Strings(classes)
+	if len(classes) == 0 {
+		classes = []string{o.kind}
+	}
+	return "stale-on-reused-destination:" + o.dest + ":" + strings.Join(classes, "+")
 }
 
 // safeExec turns a panic escaping gorm into a problem (so that it gets a signature of its own).
@@ -1014,6 +1075,9 @@ func run(c *core.Ctx) {
 		if o.fin != "" {
 			c.Inc("struct_finisher_" + o.fin)
 		}
+		if o.twice {
+			c.Inc("ops_second_execution_of_session_handle")
+		}
 		c.Add("parents_checked", k.parents)
 		c.Add("children_attached", k.attached)
 		for kind, n := range k.relKinds {
@@ -1029,13 +1093,20 @@ func run(c *core.Ctx) {
 				"world": w.name, "profile": profileNames[p], "operation": desc, "problems": msgs, "tables": ds.dump(),
 				"note": "rows inserted with raw SQL; u is a unique row id, a/b (ta/tb) are the key parts, boss_*/own_*/node_* the foreign keys, n a nullable payload",
 			}
+			// attribute to a reused destination / a reused handle only counterfactually
 			if o.reuse {
-				// attribute to the reuse only counterfactually: the same call into a fresh destination
 				fresh := *o
 				fresh.reuse, fresh.pre = false, nil
 				if kf := safeExec(ds, &fresh); len(kf.problems) == 0 {
 					sig = staleSignature(o, k)
 					detail["counterfactual"] = "the same call into a fresh zero-valued destination agrees with the reference join: " + fresh.desc()
+				}
+			} else if o.twice {
+				once := *o
+				once.twice = false
+				if kf := safeExec(ds, &once); len(kf.problems) == 0 {
+					sig = "second-execution-of-session-handle:" + o.kind
+					detail["counterfactual"] = "the first execution of the same chain agrees with the reference join: " + once.desc()
 				}
 			}
 			c.Inc("sig_" + sig)
@@ -1059,7 +1130,7 @@ func run(c *core.Ctx) {
 			if b > 3 {
 				b = 3
 			}
-			c.Shape(w.name, profileNames[p], o.kind, o.root.name, o.relName, o.dest, o.fin, o.reuse, o.dup, o.all, o.allCond != nil, o.findCond != nil, strings.Join(paths, "|"), b)
+			c.Shape(w.name, profileNames[p], o.kind, o.root.name, o.relName, o.dest, o.fin, o.reuse, o.twice, o.dup, o.all, o.allCond != nil, o.findCond != nil, strings.Join(paths, "|"), b)
 			c.Inc("nontrivial_ops")
 			if c.WantSample() && i == 3 {
 				c.Sample(map[string]interface{}{"world": w.name, "profile": profileNames[p], "operation": desc, "parents": k.parents, "children_attached": k.attached, "tables": ds.dump()})
@@ -1072,14 +1143,18 @@ var Engine = &core.Engine{
 	ID:    "C11",
 	Level: "exploration",
 	Rule: "per case one random data graph (raw-SQL inserted) in one of five worlds of the same relation family - key = string | integer | string+string | integer+string | integer+integer (composite worlds 6 of 8 cases) - " +
-		"with self-referential belongs-to/has-many, has-many + belongs-to back, has-one, many2many (composite join keys on both sides), polymorphic (single-key worlds); key parts drawn from hostile pools ('_' ',' spaces, 'nil', '0', '', leading zeros, clusters (s1,s2_s3)/(s1_s2,s3) that collide only after joining), " +
+		"with self-referential belongs-to/has-many, has-many + belongs-to back, has-one, many2many (composite join keys on both sides), polymorphic has-many and polymorphic has-one on the same table (single-key worlds; the has-one is also joined); the column order differs per world: the models that single-valued relations point to start with an embedded audit struct {DeletedAt, N} | a nullable foreign key | a nullable payload N | DeletedAt | the never-NULL row id (control), N is NULL in about half of the rows, so joined rows with leading NULL columns exist in four worlds; key parts drawn from hostile pools ('_' ',' spaces, 'nil', '0', '', leading zeros, clusters (s1,s2_s3)/(s1_s2,s3) that collide only after joining), " +
 		"foreign keys existing / dangling (preferably re-splits of an existing key) / NULL / partially NULL / zero part, soft-deleted rows in every soft-delete table; each graph is biased by one of four profiles (clean | separator clusters | partial NULL next to the text 'nil' | integer part 0) and the hazards it really carries are measured per relation, so a mismatch is signed composite-key-collision / null-part-vs-nil-text / zero-int-key-part only when that is the single hazard of the relations involved (hazard-free relations must match exactly: signature mismatch:*); x 8 operations: Preload of 1-3 random relation paths of depth 1-3 (conditions as args, map, scope function, scope with Order), Preload(clause.Associations) (+condition, +nested path), " +
-		"Joins/InnerJoins of 1-2 single-valued paths of depth 1-3 (+ON condition) combined with Preloads below/next to them, Association(rel).Find (+conditions) into []T/[]*T; parents into struct (First), []T, []*T, optionally every parent twice in the result; " +
-		"distinct = (world, operation kind, root, relation paths with condition forms, destination, duplicate flag, attached-children bucket); non-trivial = at least one child row was attached where the reference join expects it",
+		"Joins/InnerJoins of 1-2 single-valued paths of depth 1-3 (+ON condition) combined with Preloads below/next to them, Association(rel).Find (+conditions) into []T/[]*T; parents into struct (First | Take | Last | Find), []T, []*T, optionally every parent twice in the result (also next to association joins); " +
+		"destination fresh or REUSED (2/5 of the struct, 1/6 of the slice destinations, 1/4 of the Association().Find results): it already holds earlier records - a struct holds the record of the row that is read again - whose relation fields carry 1-2 arbitrary rows (rows whose key still matches but that are soft-deleted or excluded by the condition, or rows of another parent): after the call every REQUESTED relation must hold exactly the reference rows; 1/5 of the chains are frozen with Session(&gorm.Session{}) and executed twice, the second execution is compared; " +
+		"a failure that disappears with a fresh destination is signed stale-on-reused-destination:<dest>:<preload|joins|assoc-find>[:<relation kind>[:no-owner-key]], one that disappears on the first execution second-execution-of-session-handle:<kind>; " +
+		"distinct = (world, operation kind, root, relation paths with condition forms, destination, finisher, reused flag, second-execution flag, duplicate flag, attached-children bucket); non-trivial = at least one child row was attached where the reference join expects it",
 	Assumptions: []string{
 		"a record whose referenced key parts are ALL zero-valued (0 / '') is never generated as a match target: gorm treats an all-zero key as 'no key' (GetIdentityFieldValuesMap skips it); keys with SOME zero part are generated",
 		"has-one: at most one live child row per owner key (which of several candidates is picked is not fixed by the statement); any number of soft-deleted candidates",
-		"destinations are fresh zero values (pre-populated relation fields are outside the quantifier)",
+		"a reused destination holds, in its scalar fields, the current column values of the row that is read again (so First(&dest) adds the primary-key condition of that very row); relation fields of a reused STRUCT that the call does not request keep what they held (not fixed by the statement: not compared); elements of reused slices are re-created by gorm and compared like fresh ones",
+		"non-pointer scalar columns are never NULL (gorm leaves a non-pointer field of a reused destination untouched when the column is NULL: plain scanning, not part of this property)",
+		"polymorphic has-one: at most one row per (owner key, type value)",
 		"conditions only mention the payload column v; a condition is only attached to the last segment of a path; Joins ON-conditions only on depth-1 joins; a Preload whose path is (a prefix of) a joined path carries no condition (gorm takes the joined rows)",
 		"SQLite semantics of equality: binary, case- and space-sensitive text comparison; NULL equals nothing",
 		"join-table rows never contain NULL; key columns of parents are never NULL",
